@@ -57,9 +57,37 @@ func EdgeCmps(b *ssa.BasicBlock) []Cmp {
 	for _, c := range EdgeFacts(b) {
 		if m, ok := AsCmp(c); ok {
 			out = append(out, m)
+			out = append(out, deriveCmps(m, 0)...)
 		}
 	}
 	return out
+}
+
+// deriveCmps: `v != nil` where v merges nil (paths on which nothing was assigned) with one other value e
+// implies `e != nil` - the variable was hoisted out of the branch that assigns it.
+func deriveCmps(m Cmp, depth int) []Cmp {
+	if depth > 2 || m.Op != token.NEQ || !IsNilConst(m.Y) {
+		return nil
+	}
+	phi, ok := m.X.(*ssa.Phi)
+	if !ok {
+		return nil
+	}
+	var cand ssa.Value
+	for _, e := range phi.Edges {
+		if IsNilConst(e) || e == ssa.Value(phi) {
+			continue
+		}
+		if cand != nil && cand != e {
+			return nil
+		}
+		cand = e
+	}
+	if cand == nil {
+		return nil
+	}
+	d := Cmp{m.Op, cand, m.Y, m.If}
+	return append([]Cmp{d}, deriveCmps(d, depth+1)...)
 }
 
 // IsNilConst reports whether v is the nil constant.
@@ -202,4 +230,30 @@ func BlockingOp(ins ssa.Instruction) string {
 		}
 	}
 	return ""
+}
+
+// NonNilSource: for a value that merges nil with exactly one other value (a variable assigned on one
+// branch only), the value it holds wherever it is known to be non-nil; otherwise v itself.
+func NonNilSource(v ssa.Value) ssa.Value {
+	for d := 0; d < 3; d++ {
+		phi, ok := v.(*ssa.Phi)
+		if !ok {
+			return v
+		}
+		var cand ssa.Value
+		for _, e := range phi.Edges {
+			if IsNilConst(e) || e == ssa.Value(phi) {
+				continue
+			}
+			if cand != nil && cand != e {
+				return v
+			}
+			cand = e
+		}
+		if cand == nil {
+			return v
+		}
+		v = cand
+	}
+	return v
 }
